@@ -463,5 +463,6 @@ def run(ctx: Ctx, tier: str) -> Result:
         res.fail(Finding("C06.INDEP", "deep.processor.context.action_context.ActionContext", "<identity caches>", "src/deep/processor/context",
                          "frame variables, watches and captures of one action use different identity caches %s: references cannot resolve in the snapshot's table" % sorted(cache_texts)))
     from .common import borrow
+    borrow(ctx, res, tier, "c07", ("C07.OPTIONAL",), "C06.LIMIT", "a value that could not be recorded (budget exhausted) yields `not recorded`, never an error that takes the snapshot with it")
     borrow(ctx, res, tier, "c20", ("C20.ISO",), "C06.ISOLATE", "the results of the tracepoints sharing an event are processed each in its own guard")
     return res
